@@ -36,6 +36,11 @@ SPEC = dict(
          '(trapezoid: vc^2 ~ vm^2, v0^2, v1^2; bell: tv ~ 0, ta ~ 2 taj, td ~ 2 tdj, single-phase requests just above the feasibility '
          'distance, short moves that need the iterative acceleration reduction). Only requests inside the stated domain for which the '
          'generator returned a finite duration > 0 are judged; the others are generated, executed and counted (monitors "*.outside.*"). '
+         'Every case also runs 4 (companion: 2) two-call sequences on ONE context: a first plan drawn so that the values the generator records '
+         'differ from the requested ones (bell: ctx->am / ctx->vm hold the REACHED acceleration / velocity, braking side in ctx->dm; trapezoid: '
+         'ctx->vc, ctx->v1), then a second request whose arguments are read back from those fields (exactly; one argument x2, x1/2, +-1 ulp; p1 '
+         'moved; v1 changed; limits only with a new move; -dm as am; the first request with one limit read back) - filtered and judged as a '
+         'request of its own against ITS limits (monitors "replan.*"). '
          'evaluations = judged profiles (each with ~1.7e3 pos/vel/acc/jer queries). distinct_nontrivial = distinct '
          '(generator, planning branch taken [read off the generated context], direction of travel, set of limits reached: '
          'peak velocity = vm, |v0| = vm, |v1| = vm, bell: am reached, -am reached) combinations with at least one fully checked profile '
@@ -43,7 +48,12 @@ SPEC = dict(
          '(~0.7e3 queries each; half of them exact-regime requests built from dyadic values) to evaluations and their own cells '
          '(width, generator, branch, direction, exact or random regime) to distinct_nontrivial.',
     exhaustive={'quick': None, 'thorough': None},
-    require=['context-zeroed', 'context-garbage', 'context-reused-after-cruise-plan', 'a_trajtrap::gen', 'a_trajtrap::gen(5 args)', 'a_trajbell::gen(6 args)', 'a_trajbell::jer', 'a_trajtrap::pos', 'w-trap.judged', 'w-bell.judged'] + _W_BRANCHES
+    require=['context-zeroed', 'context-garbage', 'context-reused-after-cruise-plan', 'twin-fresh-context',
+             # second request on a used context, arguments read back from the fields the first plan recorded (judged against ITS limits) + twin
+             'replan-with-limits-read-back-from-context', 'replan-readback-twin-fresh-context', 'replan.trap.judged', 'replan.bell.judged',
+             'replan.judged.exact', 'replan.judged.first-plan-reached-differs-from-asked', 'replan.first.bell.cruise-braking-harder-than-run-up',
+             'w-replan-with-limits-read-back-from-context', 'w-replan-readback-twin-fresh-context',
+             'a_trajtrap::gen', 'a_trajtrap::gen(5 args)', 'a_trajbell::gen(6 args)', 'a_trajbell::jer', 'a_trajtrap::pos', 'w-trap.judged', 'w-bell.judged'] + _W_BRANCHES
             + ['w-trap.' + c for c in _W_CLAUSES] + ['w-bell.' + c for c in _W_CLAUSES + _W_BELL_ONLY]
             + ['trap.judged', 'bell.judged']
             + [b + d for b in _BRANCHES for d in ('', '.forward', '.reversed')]
@@ -75,12 +85,19 @@ SPEC = dict(
         'requests whose +-2 ulp neighbourhood contains a request the generator declines have no finite tolerance and are counted, not judged '
         '(monitor "*.not-judged.tolerance-unbounded"); "*.tolerance-inflated>1e3-by-conditioning" and "*.weak.*" count the profiles whose '
         'tolerance was widened by the measured conditioning, so that vacuity is visible',
+        'twin clause (keys */differs-from-fresh-context): for every request inside the domain with a positive duration the same arguments are '
+        'planned once more on a fresh garbage-filled (0xA5) context; returned duration, all 12 / 14 recorded fields and pos/vel/acc/jer at 4 instants (read-back '
+        'requests: all phase boundaries + 8 instants) must be bitwise equal - the property speaks of the plan of a REQUEST, so the plan may not depend on what the '
+        'context held before (zeroed, 0x47-filled, an unrelated cruise plan, or the plan the arguments were read back from); no tolerance is '
+        'involved, both calls run the same library code on the same arguments. What a declined call leaves in the context is not compared '
+        '(companion: twin on the read-back requests only)',
         'a request for which the generator reports no positive duration is outside the property (counted per direction in '
         '"*.outside.generator-declined.*"); the sign of a_trajbell_jer/acc is not constrained by the property, only magnitudes and continuity',
         'limits are judged at phase boundaries (both sides), sign changes of vel/acc located by bisection, 301 uniform and 100 random '
         'instants per profile - not at every real instant',
     ],
-    level_text='Every generated profile inside the domain is judged by kinematic monitors: phase durations, start state, end state as the '
+    level_text='Every generated profile inside the domain (including second requests on a used context whose arguments are read back from the '
+               'fields the first plan recorded) is judged by kinematic monitors: phase durations, start state, end state as the '
                'one-sided limit at T, hold outside [0,T], continuity of pos/vel(/acc) across every phase boundary as one-sided limits '
                '(nextafter), |vel|<=vm (bell: |acc|<=am, |jer|<=jm) at boundaries, extrema and 401 instants, and the step between '
                'neighbouring grid samples against the limit of the next derivative. The request space is continuous (7 reals), so it is '
